@@ -4,7 +4,7 @@ PID = "C12"
 
 
 def run(tier, seed):
-    return exec_common.run_exec(PID, tier, seed, 4, scns=("exec", "cancelnew", "cancelmix"))
+    return exec_common.run_exec(PID, tier, seed, 4, scns=("exec", "cancelnew", "cancelmix", "migrate"))
 
 
 def replay(path):
